@@ -1,6 +1,6 @@
 """C06 -- every model of the Max-SMT encoding decodes to a realizing sequence; the emitted SMT-LIB is well formed.
 
-For each small specification (init_progr_len <= 5) and each encoder option set the real BlockOptimizer produces its
+For each small specification (init_progr_len <= 8) and each encoder option set the real BlockOptimizer produces its
 SMT-LIB text.  The hard part is parsed strictly by z3 (every symbol declared once, sorts and arities respected: a parse
 error is a violation of the second sentence).  Then ONE model-set inclusion query per instance:
       hard_GASOL  and  link(t_j <-> E3.t_j through theta_to_instr)  and  not realizes_E3        must be UNSAT
@@ -20,6 +20,9 @@ from vlib.smt import Stats
 
 STATS = Stats()
 TERM_ENCODINGS = ["uninterpreted_uf", "int", "stack_vars", "uninterpreted_int"]
+
+
+MAX_LEN = 8
 
 
 def option_sets(tier):
@@ -179,7 +182,7 @@ def job(j):
             except Exception:
                 continue
             for name, spec in sfs.items():
-                if spec["init_progr_len"] > 5 or spec["init_progr_len"] < 1:
+                if spec["init_progr_len"] > MAX_LEN or spec["init_progr_len"] < 1:
                     continue
                 rec = instance(spec, name, opts)
                 rec["text"] = text
@@ -193,6 +196,7 @@ def main():
     ops, pairs = F.rule_opcodes()
     texts = F.f_exh(2) + F.consuming_singles(["ADD", "SUB", "AND", "ISZERO", "LT", "SHL"])[::3]
     texts += F.f_mem((2,), deltas=[0])[::3]
+    texts += F.f_mem_dataflow(deltas=(0,))[:: (3 if tier == "quick" else 1)]
     texts += ["%s %s %s" % (a, op, b) for op in ("SUB", "LT", "DIV", "SHL", "ADD", "AND") for a in ("DUP1", "DUP2", "PUSH 1", "SWAP1")
               for b in ("DUP1", "DUP2", "SWAP1", "POP")]
     texts += ["PUSH 0 DUP2 ADD PUSH 3 MUL", "DUP2 DUP2 SUB SWAP1 POP", "DUP3 DUP3 MSTORE DUP2 MLOAD", "DUP2 DUP2 SSTORE DUP1 SLOAD",
@@ -251,7 +255,7 @@ def main():
                       "BlockOptimizer._rebuild_block_from_solver / SolverFromExecutable.get_value"],
         "stubs": ["the solver is never run: the emitted text is parsed by z3's SMT-LIB front end"],
     }
-    rep.assumptions = ["specifications with init_progr_len <= 5", "z3's parser as well-formedness oracle (declared once, sorts, arities)"]
+    rep.assumptions = ["specifications with init_progr_len <= %d" % MAX_LEN, "z3's parser as well-formedness oracle (declared once, sorts, arities)"]
     sys.exit(rep.finish())
 
 
